@@ -323,9 +323,12 @@ func (s *Server) Session(strm signaling.SRPCSignaling_SessionStream) error {
 		// Check if we are still the active session for this key.
 		currLocalPeer, currRemotePeer := sess.getCurrPeers(localIsPeerA)
 		currUserped := currLocalPeer != ourPeerTkr
+		// currOpen holds a copy of the session epoch: it is compared by value
+		// with the epoch we last announced to the local peer.
 		var currOpen *uint64
 		if currRemotePeer != nil {
-			currOpen = &sess.seqno
+			currSeqno := sess.seqno
+			currOpen = &currSeqno
 		}
 		waitCh = sess.getWaitCh()
 
@@ -353,7 +356,8 @@ func (s *Server) Session(strm signaling.SRPCSignaling_SessionStream) error {
 		}
 
 		// Send the opened or closed message if opened or closed.
-		if prevSentOpenToLocal != currOpen {
+		if (prevSentOpenToLocal == nil) != (currOpen == nil) ||
+			(currOpen != nil && *prevSentOpenToLocal != *currOpen) {
 			var err error
 			if currOpen != nil {
 				err = strm.Send(&signaling.SessionResponse{
